@@ -1313,8 +1313,12 @@ func genLines(seed int64, idx int) (*Case, error) {
 	case 4:
 		s.FailAt = 4096 * r.Intn(total/4096+1)
 	default: // inside the last line
-		last := &s.Lines[n-1]
-		s.FailAt = total - r.Intn(last.Len+len(last.End)+1)
+		if n == 0 {
+			s.FailAt = 0 // empty source
+		} else {
+			last := &s.Lines[n-1]
+			s.FailAt = total - r.Intn(last.Len+len(last.End)+1)
+		}
 	}
 	s.FailData = r.Intn(2) == 0
 	s.FailErr = r.Intn(len(failErrs))
